@@ -5,5 +5,6 @@ CONSTANTS
   MaxLen = 3
   WithSnp = TRUE
   EmitReplay = TRUE
+  KK = 5
 INVARIANTS Traversal
 CHECK_DEADLOCK FALSE
